@@ -402,12 +402,27 @@ func (r *Run) Step(op Op) StepObs {
 		}
 		dbgErrs[kind+" | "+e]++
 	}
+	if op.K == "update" && op.X&xOwnerChange != 0 && op.C != op.S && op.V > 0 {
+		// C04 coverage: tokens attached to an update whose owner_id names another client
+		who, dem, okk := "owner", "demeter-off", "rejected"
+		if pa := pre.Allocs[op.A]; pa != nil && pa.Owner != op.S {
+			who = "third-party"
+		}
+		if d := r.H.Conf.Demeter; d >= 0 && res.Round >= d {
+			dem = "demeter-on"
+		}
+		if res.OK {
+			okk = "ok"
+		}
+		r.Kinds["update-value-other-owner-id:"+who+":"+dem+":"+okk]++
+	}
 	if res.OK {
 		r.Kinds[kind+":ok"]++
 	} else {
 		r.Kinds[kind+":rejected"]++
 	}
-	st := StepObs{Kind: kind, Op: op, Now: now, Round: res.Round, OK: res.OK, Err: res.Err, Transfers: res.Transfers, Model: model, Post: post}
+	st := StepObs{Kind: kind, Op: op, Now: now, Round: res.Round, OK: res.OK, Err: res.Err, Transfers: res.Transfers,
+		Sender: res.Sender, Func: res.Func, Value: res.Value, Model: model, Post: post}
 	st.Op.K = op.K
 	r.Steps = append(r.Steps, st)
 	r.Pre = post
